@@ -542,8 +542,12 @@ func (c *rewriteClient) Return(e *Engine, st *State, ret *ast.ReturnStmt) {
 				return false
 			}
 		}
-		// the second part is the argument's own single part
-		k := e.CanonSt(st, c.p.Resolve(pl.Elts[1]))
+		// the second part is the argument's own single part (or a copy of it that keeps name and Quoted flag)
+		second := c.p.Resolve(pl.Elts[1])
+		if orig := c.p.identCopyOf(second); orig != nil {
+			second = c.p.Resolve(orig)
+		}
+		k := e.CanonSt(st, second)
 		return k.OK && k.Key == idk+".Parts[0]"
 	}
 	if !side("X", "leftJoinTableAlias") || !side("Y", "rightJoinTableAlias") {
@@ -569,4 +573,56 @@ func (p *Program) parserJoinKinds() (map[string]bool, *ast.CompositeLit) {
 		}
 	}
 	return parserKinds, jt
+}
+
+// identCopyOf: x is a call of a module function that returns a copy of the identifier it is given - every return
+// is nil or an Ident literal with Name and Quoted taken from the parameter. Returns the argument.
+func (p *Program) identCopyOf(x ast.Expr) ast.Expr {
+	call, ok := ast.Unparen(x).(*ast.CallExpr)
+	if !ok || len(call.Args) != 1 {
+		return nil
+	}
+	f := Callee(p.Info, call)
+	decl, _ := p.DeclOf(f)
+	if decl == nil || decl.Body == nil || decl.Recv != nil || len(decl.Type.Params.List) != 1 || len(decl.Type.Params.List[0].Names) != 1 {
+		return nil
+	}
+	po := p.Info.Defs[decl.Type.Params.List[0].Names[0]]
+	if po == nil || strings.TrimPrefix(TypeStr(po.Type()), "*") != "parser.Ident" || !p.neverReassigned(po) {
+		return nil
+	}
+	good, lits := true, 0
+	ast.Inspect(decl.Body, func(n ast.Node) bool {
+		ret, isRet := n.(*ast.ReturnStmt)
+		if !isRet {
+			return true
+		}
+		if len(ret.Results) != 1 {
+			good = false
+			return true
+		}
+		res := ast.Unparen(ret.Results[0])
+		if isNilIdent(p.Info, res) || objOf(p.Info, res) == po {
+			return true
+		}
+		lit := litOf(res)
+		if lit == nil || strings.TrimPrefix(TypeStr(p.Info.TypeOf(lit)), "*") != "parser.Ident" {
+			good = false
+			return true
+		}
+		lits++
+		from := func(field string) bool {
+			v := litField(p.Info, lit, field)
+			sel, isSel := ast.Unparen(v).(*ast.SelectorExpr)
+			return v != nil && isSel && sel.Sel.Name == field && objOf(p.Info, sel.X) == po
+		}
+		if !from("Name") || !from("Quoted") {
+			good = false
+		}
+		return true
+	})
+	if !good || lits == 0 {
+		return nil
+	}
+	return call.Args[0]
 }
